@@ -29,6 +29,7 @@ var c15Binds = []struct{ key, action string }{
 	{"alt-w", "reload(GEN 1)"}, {"alt-x", "reload(GEN 0)"},
 	// the --header text replaced by one with another number of lines (or none): every other row moves
 	{"alt-3", "toggle-wrap"},
+	{"alt-4", "change-query(b)"}, // as long as change-query(a): rows whose rank does not change must still be redrawn
 	{"alt-y", "change-header(H1 one\nH2 two\nH3 three)"}, {"alt-z", "change-header(HX solo)"}, {"alt-1", "change-header(HA first\nHB second)"}, {"alt-2", "change-header()"},
 }
 
@@ -98,6 +99,25 @@ func genC15Plan(r *zsim.Rng) *sysPlan {
 	}
 	if r.Chance(1, 5) {
 		p.Args = append(p.Args, "--no-separator")
+	}
+	if r.Chance(1, 4) {
+		// what matches "a" is at one end of the line, what matches "b" at the other, far apart
+		var far []string
+		for k := r.Range(1, 3); k > 0; k-- {
+			far = append(far, "a "+strings.Repeat("x", r.Range(100, 200))+" b #h"+strconv.Itoa(k))
+		}
+		if r.Bool() {
+			// ... in the first, complete chunk of 100 records (the items of complete chunks are the same objects
+			// from one search to the next), with nothing else that matches either query
+			p.Lines.N = 0
+			p.Lines.Extra = far
+			for k := r.Range(100, 160); k > 0; k-- {
+				p.Lines.Extra = append(p.Lines.Extra, "zz #"+strconv.Itoa(k))
+			}
+		} else {
+			p.Lines.Extra = append(p.Lines.Extra, far...)
+		}
+		p.Gens[0] = p.Lines
 	}
 	if r.Chance(1, 5) {
 		p.Args = append(p.Args, "--ellipsis", pick(r, "", "…", ">>>", "."))
@@ -243,7 +263,7 @@ func c15Settle(r *sysRun, busy bool) {
 		// Where exactly the rows go when the header does not fit is not documented; what is: the prompt line
 		// shows the query and the info line shows the counters - they are somewhere on the screen.
 		c.count("probe.header_first", 1)
-		foundPrompt, foundInfo := false, info == "hidden" || inlineInfo && runeWidthOf("> "+st.Query)+14 > cols || cols < 16
+		foundPrompt, foundInfo := false, info == "hidden" || inlineInfo && runeWidthOf("> "+st.Query)+14 > cols || cols < 24 // (counters of several digits are cut in a narrow window)
 		for _, row := range scr {
 			if strings.HasPrefix(row+" ", "> ") {
 				foundPrompt = true
@@ -554,6 +574,12 @@ func c15Settle(r *sysRun, busy bool) {
 				return
 			}
 			core := strings.TrimSuffix(strings.TrimPrefix(text, ellipsis), ellipsis)
+			if q := st.Query; len(q) == 1 && q[0] >= 'a' && q[0] <= 'z' && !hasArg(plan.Args, "--no-hscroll") &&
+				len(want) == len([]rune(want)) && strings.Contains(strings.ToLower(want), q) && !strings.Contains(strings.ToLower(core), q) && len([]rune(core)) > 8 {
+				// a line that does not fit is scrolled so that what matches is in view (--hscroll, the default)
+				c.violate("c15.row_text", "row %d shows %q of result %d = %q for the query %q: nothing of what matches is in view (%s)%s", row, text, idx, want, q, where, dump())
+				return
+			}
 			if !strings.Contains(want, strings.TrimRight(core, " ")) {
 				c.violate("c15.row_text", "row %d shows %q which is not a piece of result %d = %q (%s)", row, text, idx, want, where)
 				return
@@ -643,6 +669,13 @@ func runC15(c *runCtx) {
 		plan = genC15Plan(c.rng)
 	}
 	c.plan = plan
+	// the scenario is about the documented layout without scrollbar and mouse: a minimised plan that has lost
+	// these options gets them back
+	for _, o := range []string{"--no-scrollbar", "--no-mouse"} {
+		if !hasArg(plan.Args, o) {
+			plan.Args = append(plan.Args, o)
+		}
+	}
 	r := newSysRun(c, plan)
 	r.onSettle = func(r *sysRun, busy bool, final bool) { c15Settle(r, busy) }
 	defer r.cleanup()
